@@ -238,7 +238,7 @@ def dupQueryUnsorted (q : List (Bytes × Bytes)) : Bool :=
     `sigv4-edge-whitespace-amz-header` (SP / HTAB around `x-amz-date` or `x-amz-content-sha256`) is repaired by d453cd3:
     the blanks no longer decide the verdict, so the shapes that still do (the open classes) are looked at first; a request
     that has nothing but the edge blanks keeps the class, and a regression is flagged under it.
-    `sigv4-get-head-body` (a body on GET / HEAD) is repaired by a3c9b6f: the class stays, so that a request of this
+    `sigv4-get-head-body` (a body on GET / HEAD) is repaired by 4d2a913: the class stays, so that a request of this
     shape that is refused although the reference verifier accepts it (or the reverse) is reported under it again. -/
 def e2eClass (w : SigV4Spec.Wire) : String :=
   let hs := SigV4Spec.effectiveHeaders w
